@@ -182,7 +182,9 @@ def gen_hyp(rng):
             picks.append({'station': 'ST%02d' % rng.randint(1, 99), 'phase': rng.choice(['P', 'P', 'S', 'SH']),
                           'pol': rng.choice(['U', 'D', '?', '+', '-', 'c', '.', 'u', 'd']), 'unc': rng.randint(1, 50) / 100.0,
                           'az': rng.randint(0, 3599) / 10.0, 'toa': rng.randint(0, 1800) / 10.0})
-        events.append({'sec': '%02d.%04d' % (rng.randint(0, 59), rng.randint(0, 9999)), 'picks': picks})
+        events.append({'sec': '%02d.%04d' % (rng.randint(0, 59), rng.randint(0, 9999)), 'picks': picks,
+                       'long_line_outside': rng.random() < 0.3, 'short_line_inside': rng.random() < 0.3, 'stat_after': rng.random() < 0.3})
+    events[-1]['unterminated'] = rng.random() < 0.2
     return events
 
 
@@ -191,18 +193,83 @@ def render_hyp(events):
     for k, ev in enumerate(events):
         out.append('NLLOC "loc/x.%d" "LOCATED" "Location completed."' % k)
         out.append('GEOGRAPHIC  OT 2014 02 %02d  12 %02d %s  Lat 64.0 Long -16.5 Depth 5.0' % (k + 1, k + 3, ev['sec']))
+        if ev.get('long_line_outside'):
+            # a line of 27 tokens outside the PHASE section (a commented-out pick): carries nothing
+            out.append('COMMENT ? ? ? P U 20140202 1201 12.5 GAU 0.02 -1.0 1.5 -1.0 > 1.0 0.1 1.0 10.0 20.0 0.0 5.0 180.0 77.0 33.0 9 0.0')
         out.append('PHASE ID Ins Cmp On Pha  FM Date     HrMn   Sec     Err  ErrMag    Coda      Amp       Per  >   TTpred    Res       Weight    StaLoc(X  Y         Z)        SDist    SAzim  RAz  RDip RQual    Tcorr')
-        for p in ev['picks']:
+        for j, p in enumerate(ev['picks']):
+            if j == 1 and ev.get('short_line_inside'):
+                out.append('# picks below were revised')
             out.append('%s ? ? ? %s %s 20140202 1201 12.5 GAU %.2f -1.0 %.2f -1.0 > 1.0 0.1 1.0 10.0 20.0 0.0 5.0 180.0 %.1f %.1f 9 0.0' % (
                 p['station'], p['phase'], p['pol'], p['unc'], 1.5, p['az'], p['toa']))
         out.append('END_PHASE')
-        out.append('END_NLLOC')
+        if ev.get('stat_after'):
+            out.append('ST77 ? ? ? P D 20140202 1201 12.5 GAU 0.02 -1.0 1.5 -1.0 > 1.0 0.1 1.0 10.0 20.0 0.0 5.0 180.0 11.0 22.0 9 0.0')
+        if not ev.get('unterminated'):
+            out.append('END_NLLOC')
         out.append('')
     return '\n'.join(out)
 
 
+PHASES = {'P': 0, 'S': 1, 'SH': 2, 'SV': 3}
+LETTERS = {'u': 0, '?': 1, 'd': 2, '+': 3, 'c': 4, '-': 5, '.': 6, 'p': 7, 'n': 8}
+
+
+def _zq(x, scale):
+    v = round(float(x) * scale)
+    return '(%d)' % v
+
+
+def coq_hyp_lines(text):
+    """tokenisation of the file as parse_hyp does it (rstrip, split on white space, empty lines dropped) into Model/Hyp.v lines"""
+    out = []
+    for line in text.split('\n'):
+        t = line.rstrip().split()
+        if not t:
+            continue
+        if t[0] == 'PHASE':
+            out.append('HPhase')
+        elif t[0] == 'END_PHASE':
+            out.append('HEndPhase')
+        elif t[0] == 'END_NLLOC':
+            out.append('HEndLoc')
+        elif len(t) >= 25 and t[0].startswith('ST') and t[4] in PHASES and t[5].lower() in LETTERS:
+            out.append('(HLine %d%%nat (mkPick %d %d %d %s %s %s))' % (len(t), int(t[0][2:]), PHASES[t[4]], LETTERS[t[5].lower()],
+                                                                      _zq(t[10], 100), _zq(t[23], 10), _zq(t[24], 10)))
+        elif len(t) >= 25:
+            out.append('(HLine %d%%nat (mkPick 0 0 %d 0 %s %s))' % (len(t), LETTERS.get(t[5].lower(), 1), _zq(t[23], 10), _zq(t[24], 10)))
+        else:
+            out.append('(HLine %d%%nat (mkPick 0 0 1 0 0 0))' % len(t))
+    return '[' + '; '.join(out) + ']'
+
+
+def coq_hyp_expected(parsed):
+    evs = []
+    for ev in parsed:
+        ents = []
+        for k, v in ev.items():
+            if k in ('UID', 'hyp_file'):
+                continue
+            names = v['Stations']['Name']
+            az = np.asarray(v['Stations']['Azimuth'], dtype=float).flatten()
+            toa = np.asarray(v['Stations']['TakeOffAngle'], dtype=float).flatten()
+            me = np.asarray(v['Measured'], dtype=float).flatten()
+            er = np.asarray(v['Error'], dtype=float).flatten()
+            n = min(len(names), len(az), len(toa), len(me), len(er))
+            if not k.endswith('Polarity') or k[:-8] not in PHASES or max(len(names), len(az), len(toa), len(me), len(er)) != n:
+                ents.append('(99, [])')
+                continue
+            ents.append('(%d, [%s])' % (PHASES[k[:-8]], '; '.join(
+                'mkObs %d (%d) %s %s %s' % (int(names[j][2:]) if names[j].startswith('ST') else 0, int(me[j]), _zq(er[j], 100), _zq(az[j], 10), _zq(toa[j], 10))
+                for j in range(n))))
+        if ents:
+            evs.append('[' + '; '.join(ents) + ']')
+    return '[' + '; '.join(evs) + ']'
+
+
 def hyp_run(R, fio, n, tmp):
     bad = None
+    exprs, recs = [], []
     poldict = {'u': 1, '?': 0, 'd': -1, '+': 1, 'c': 1, '-': -1, '.': 0, 'p': 1, 'n': -1}
     for i in range(n):
         events = gen_hyp(R.rng)
@@ -241,10 +308,18 @@ def hyp_run(R, fio, n, tmp):
                     got.append(d)      # an event without polarity picks may or may not be listed: it carries no data
             if got != want:
                 bad = bad or dict(rec, check='hyp-parse', implementation=str(got)[:700], expected=str(want)[:700])
+            exprs.append('(check_hyp %s %s)' % (coq_hyp_lines(text), coq_hyp_expected(parsed)))
+            recs.append(rec)
         except Exception as ex:
             bad = bad or dict(rec, check='hyp-exception', error=repr(ex))
         os.remove(fn)
-    return bad
+    failing, errors = core.run_cases('c17h', 'From Coq Require Import ZArith List.\nFrom MTV.Model Require Import Hyp.\nImport ListNotations.\nOpen Scope Z_scope.',
+                                     exprs, chunk=100)
+    for e in errors:
+        R.signal('correspondence-infrastructure', e)
+    R.cov['hyp_correspondence_cases'] = len(exprs)
+    R.cov['hyp_correspondence_disagreements'] = len(failing)
+    return [recs[j] for j in failing], bad
 
 
 # ----------------------------------------------------------------------------- binary
@@ -348,17 +423,17 @@ def binary_run(R, fio, n, tmp):
 
 def run(R):
     fio = _impl()
-    proved = R.prove(extra_targets=['Model/FileIO.v'])
+    proved = R.prove(extra_targets=['Model/FileIO.v', 'Model/Hyp.v'])
     R.assumptions += ['text is tokenised by the harness (split at commas / whitespace, float()) and bytes are cut into items with the struct '
                       'format strings of the writer: that glue is trusted; the model works on tokens and items',
                       'CSV: well-formed files only (every data type has a header line and at least one station; rows of one type have the same '
-                      'number of values); the default UID (event number) is glue; hyp files: one PHASE block per event',
+                      'number of values); the default UID (event number) is glue; hyp files: one PHASE block per event; station, phase and first-motion tokens are coded as integers, time errors in hundredths and angles in tenths (the generator writes them with that many decimals)',
                       'binary: values compared bit for bit except the three off-diagonal components, which the format stores divided by sqrt2 '
                       '(read value = sqrt2 * stored, within 2 ulp of the written one)']
     tmp = tempfile.mkdtemp(prefix='c17_')
     try:
         cfail, cbad = csv_run(R, fio, R.n(120, 3000), tmp)
-        hbad = hyp_run(R, fio, R.n(120, 3000), tmp)
+        hfail, hbad = hyp_run(R, fio, R.n(120, 3000), tmp)
         bfail, bbad = binary_run(R, fio, R.n(120, 3000), tmp)
     finally:
         shutil.rmtree(tmp, ignore_errors=True)
@@ -368,10 +443,12 @@ def run(R):
     else:
         for rec in cfail[:1]:
             R.signal('correspondence', {'what': 'parse_csv differs from Model/FileIO.v', 'case': rec})
+        for rec in hfail[:1]:
+            R.signal('correspondence', {'what': 'parse_hyp differs from Model/Hyp.v', 'case': rec})
         for rec in bfail[:1]:
             R.signal('correspondence', {'what': 'binary records differ from Model/FileIO.v', 'case': rec})
     R.cov['rule'] = ('CSV: 1-5 events, 1-4 data types, 1-20 stations, shuffled header columns with an optional extra column, one- and two-valued '
-                     'fields, with/without UID (UID=, UID:); hyp: 1-4 events, 1-12 picks of several phases and all polarity letters; binary: '
+                     'fields, with/without UID (UID=, UID:); hyp: 1-4 events, 1-12 picks of several phases and all polarity letters, pick-like lines outside the PHASE section, short lines inside it, a last event without END_NLLOC, every file also run through Model/Hyp.v inside Coq; binary: '
                      '1-3 concatenated records with 0-17 samples, with and without converted parameters')
     return proved
 
